@@ -106,6 +106,11 @@ def subsets():
     subs.append(("binary", [names[2], names[0], names[6]]))
     subs.append(("continuous", None))
     subs.append(("binary", None))
+    subs.append((["continuous", "binary"], None))
+    subs.append((["binary", "continuous"], None))
+    subs.append((["continuous", "binary"],
+                 [names[12], names[1], names[3], names[0]]))
+    subs.append((["continuous"], [names[9], names[4]]))
     return subs
 
 
@@ -177,9 +182,11 @@ def case_fn(case):
                  f"{wt}:{names}", repr(e))
             continue
         nsub += 1
+        wts = wt if isinstance(wt, list) else [wt]
         pool = [n for n in nall
-                if wt == "all" or n.startswith("feat_bin_") == (wt ==
-                                                                "binary")]
+                if "all" in wts
+                or ("binary" in wts and n.startswith("feat_bin_"))
+                or ("continuous" in wts and n.startswith("feat_con_"))]
         want = sorted(n for n in (names if names is not None else pool)
                       if n in pool)
         if list(sn) != want:
